@@ -29,7 +29,9 @@ type VarsCase struct {
 	// ProjDir names the directory holding the spokfile ("" = proj)
 	ProjDir string `json:"proj_dir,omitempty"`
 	// Invoke: how spok is pointed at the project (sandbox.Box.Invoke)
-	Invoke  string            `json:"invoke,omitempty"`
+	Invoke string `json:"invoke,omitempty"`
+	// Outputs: "files" = standard output and error are regular files (sandbox.Box.FileOutputs)
+	Outputs string            `json:"outputs,omitempty"`
 	Vars    []VarDef          `json:"vars"`
 	Ambient map[string]string `json:"ambient"`
 	DotEnv  map[string]string `json:"dotenv"`
@@ -47,6 +49,9 @@ type VarsCase struct {
 	// template syntax cannot read (an awk program). spok may reject the spokfile; if it runs the command,
 	// the reference in it is replaced like any other
 	BadBraces bool `json:"bad_braces,omitempty"`
+	// Flags: further flags on the judged run (--debug, --force, --quiet is not among them since the JSON
+	// document is what is read): what spok logs or whether it consults its cache has no bearing on values
+	Flags []string `json:"flags,omitempty"`
 }
 
 var varNames = []string{"AMB_A", "HOME", "LANG", "DOT_B", "BOTH_C", "PLAIN_D", "other", "Mixed_e"}
@@ -71,6 +76,7 @@ func genVars(t *rapid.T) VarsCase {
 	c := genVarsBody(t)
 	c.ProjDir = genProjDir(t)
 	c.Invoke = genInvoke(t)
+	c.Outputs = genOutputs(t)
 	return c
 }
 
@@ -98,7 +104,11 @@ func genVarsBody(t *rapid.T) VarsCase {
 			v.Args = rapid.SliceOfN(rapid.SampledFrom(joinSegs), 0, 4).Draw(t, "joinargs")
 		default:
 			v.Kind = "string"
-			v.Text = string(rapid.SliceOfN(rapid.SampledFrom(valueRunes), 0, 12).Draw(t, "value"))
+			max := 12
+			if rapid.IntRange(0, 5).Draw(t, "long_value") == 0 {
+				max = 200 // values are not always short: flag lists, long paths
+			}
+			v.Text = string(rapid.SliceOfN(rapid.SampledFrom(valueRunes), 0, max).Draw(t, "value"))
 			v.Want = v.Text
 		}
 		c.Vars = append(c.Vars, v)
@@ -120,6 +130,7 @@ func genVarsBody(t *rapid.T) VarsCase {
 	}
 	c.Gate = rapid.IntRange(0, 2).Draw(t, "gate") == 0
 	c.BadBraces = n > 0 && rapid.IntRange(0, 7).Draw(t, "bad_braces") == 0
+	c.Flags = rapid.SampledFrom([][]string{nil, nil, nil, {"--debug"}, {"--debug"}, {"--force"}, {"-f", "--debug"}}).Draw(t, "run_flags")
 	return c
 }
 
@@ -192,6 +203,7 @@ func execVars(s *ev.Shard, b *sandbox.Box, c VarsCase) *rp.Fail {
 	if err := b.ResetFor(c.ProjDir, c.Invoke); err != nil {
 		return &rp.Fail{Sig: "harness", Msg: err.Error()}
 	}
+	b.FileOutputs = c.Outputs == "files"
 	src, _ := c.source()
 	files := map[string]string{"spokfile": src, "nested/dir/": "", "real/sub/": "", "out/dir/": "", "gate.txt": "gate"}
 	if len(c.DotEnv) > 0 {
@@ -247,7 +259,7 @@ func execVars(s *ev.Shard, b *sandbox.Box, c VarsCase) *rp.Fail {
 			return &rp.Fail{Sig: "valid-program-rejected", Size: size, Msg: fmt.Sprintf("%s: `spok gate` failed with status %d: %s", desc, r0.Exit, sandbox.Strip(r0.Stderr))}
 		}
 	}
-	res := b.Run(cwd, env, runTimeout, append([]string{"--json"}, request...)...)
+	res := b.Run(cwd, env, runTimeout, append(append([]string{"--json"}, c.Flags...), request...)...)
 	if res.TimedOut {
 		return &rp.Fail{Sig: "harness", Msg: "spok timed out: " + res.Stderr}
 	}
